@@ -81,7 +81,7 @@ pub fn model_result(reply: &str) -> &str {
 }
 
 fn is_range_err(s: &str) -> bool {
-    s.starts_with("(err oob") || s.starts_with("(err cast") || s.starts_with("(err div0")
+    s.starts_with("(err oob") || s.starts_with("(err cast")
 }
 
 fn human(c: &Cell) -> String {
@@ -117,8 +117,6 @@ pub fn judge(prop: &str, stream: &str, c: &Cell, o: &CellOutcome, supported: &dy
                     "a result outside the range of its type must be an error (the exact result is out of range, the implementation returned a value)",
                     format!("C01 silent-range {}", tys),
                 );
-            } else if !o.model.unanswered && (imp.starts_with("(ok") != model.starts_with("(ok")) {
-                push("model-disagreement", "value/error class differs from the model", format!("C01 class {}", tys));
             }
         }
         "C02" => {
@@ -168,7 +166,7 @@ pub fn judge(prop: &str, stream: &str, c: &Cell, o: &CellOutcome, supported: &dy
                     None => {}
                 }
             }
-            if !o.model.unanswered && (imp == "(err type)") != (model == "(err type)") {
+            if !none_involved && !o.model.unanswered && (imp == "(err type)") != (model == "(err type)") {
                 push("model-disagreement", "type-error-ness differs from the model", format!("C03 typeerr {}", tys));
             }
         }
